@@ -259,6 +259,9 @@ def _execute_synthetic(sc, sim, out):
         os.remove(outp)
         r = pipe.call(pipe.write_fit_file, outp, infos)
         sim.faults = []
+        if r[0] == 'ok':
+            out.probe('open_seam_bypassed')
+            break
         if r[0] not in ('crash', 'exc'):
             raise env.HarnessError('live fault did not fire')
         out.probe('live_' + lf['kind'])
@@ -356,6 +359,9 @@ def _execute(sc, sim, out):
             res, _ = _run_writer(dict(sc, mode='fit'), sim, W, d, lines, outp)
             sim.faults = []
             expect = 'crash' if lf['kind'] == 'crash' else 'exc'
+            if res[0] == 'ok':
+                out.probe('open_seam_bypassed')      # the code no longer opens its output through the seam: no live fault possible
+                break
             if res[0] != expect:
                 raise env.HarnessError('live fault %s at %d ended with %r' % (lf, at, res))
             left = env.real_open(outp, 'rb').read()
@@ -392,6 +398,8 @@ def _execute(sc, sim, out):
         sim.hooks = {}
         if res[0] != 'ok':
             raise env.HarnessError('observed writer ended with %r' % (res,))
+        if not seen:
+            out.probe('open_seam_bypassed')
         outcomes.update(seen)
         regions.add(('observe', len(seen)))
     w = sc['world']
